@@ -178,6 +178,63 @@ def disabled_sessions(ctx: Ctx):
     ctx.coverage["oracle"]["disabled_sessions"] = len(confs)
 
 
+SESSION_SRC = """from inline_snapshot import snapshot
+import pytest
+
+
+def test_1_wrong():
+    assert 1 == snapshot(2)
+
+
+def test_2_right():
+    assert 5 == snapshot(5)
+
+
+def test_3_bounds():
+    for x in (1, 2):
+        assert x <= snapshot(3)
+    assert 4 in snapshot([4])
+
+
+@pytest.mark.parametrize("v", [1, 2])
+def test_4_param(v):
+    assert v >= snapshot(0)
+
+
+def test_5_missing():
+    assert 1 == snapshot()
+
+
+def test_6_right_again():
+    assert {"a": 1} == snapshot({"a": 1})
+"""
+
+
+def session_equivalence(ctx: Ctx):
+    """a whole session: every test passes with inline-snapshot active and no approval iff it passes with --inline-snapshot=disable
+    (tests after a failing one included)"""
+    import shutil
+
+    def one(flags):
+        d = driver.scratch_dir()
+        try:
+            driver.write_project(d, {"test_s.py": SESSION_SRC})
+            r = driver.run_pytest(d, [f"--inline-snapshot={flags}"] if flags else [])
+            return flags, r["outcomes"], r["rc"]
+        finally:
+            shutil.rmtree(d, ignore_errors=True)
+    res = dict((f, (o, rc)) for f, o, rc in tmap(one, ["disable", "", "report", "short-report"]))
+    base = {k: (v == "passed") for k, v in res["disable"][0].items()}
+    for f in ("", "report", "short-report"):
+        ctx.count(("session", f), True)
+        got = {k: (v == "passed") for k, v in res[f][0].items()}
+        # test_5_missing: an empty snapshot() cannot be evaluated when disabled (documented), it is compared separately
+        diff = {k: (base.get(k), got.get(k)) for k in set(base) | set(got) if base.get(k) != got.get(k) and "missing" not in k}
+        if diff:
+            ctx.report(f"a session without approval (flags {f!r}) and a session with --inline-snapshot=disable disagree on which tests pass: {diff}", {"kind": "session", "flags": f})
+    ctx.coverage["oracle"]["whole_session_equivalence"] = 3
+
+
 def run(ctx: Ctx):
     ctx.coverage["rule"] = (
         "A: single-site scripts (as C05) with no flags and with random flags, results vs Model/SnapOps.v and vs the same comparison on the plain value; "
@@ -240,6 +297,7 @@ def run(ctx: Ctx):
     ctx.coverage["oracle"]["differential_comparisons"] = ncmp
     ctx.sample({"differential_program": progs[0][1]})
     disabled_sessions(ctx)
+    session_equivalence(ctx)
 
 
 def replay(ctx: Ctx, data):
